@@ -51,11 +51,45 @@ func (e *attrEval) EvalModifiers(target key.TargetID) *info.ModifierState {
 	}
 }
 
+// listener slots, in the order of the model's record  mkLs l_hp l_limbo l_stance l_break l_reset l_energy l_sp
+const (
+	slotHP = iota
+	slotLimbo
+	slotStance
+	slotBreak
+	slotReset
+	slotEnergy
+	slotSP
+	nSlots
+)
+
 type attrWorld struct {
 	eval  *attrEval
 	svc   attribute.Manager
 	limbo bool
 	evs   []term.T
+	// per event of the service: the queue of scripts (lists of op terms) its listener still has to run
+	queues [nSlots][]term.T
+}
+
+// react is what the one listener of every event does after recording the event: it writes down what the
+// getters of the event's unit return right now, pops the next script of the slot and calls the REAL service
+// again, from inside the outer call's Emit.  What the service reads from the rest of the engine (the scripted
+// modifier.Eval, the LimboWaitHeal verdict) belongs to the call that is running: it is restored when a nested
+// call returns.
+func (w *attrWorld) react(slot int, id key.TargetID) {
+	w.evs = append(w.evs, term.C("ESeen", w.snap(id)))
+	q := w.queues[slot]
+	if len(q) == 0 {
+		return
+	}
+	w.queues[slot] = q[1:]
+	for _, o := range term.List(q[0]) {
+		env, tgt, limbo := w.eval.env, w.eval.target, w.limbo
+		_, err := w.call(o)
+		w.eval.env, w.eval.target, w.limbo = env, tgt, limbo
+		w.evs = append(w.evs, term.C("ERet", term.I(errCode(err))))
+	}
 }
 
 func keyOf(r key.Reason) int64 {
@@ -73,29 +107,36 @@ func newAttrWorld() *attrWorld {
 		w.evs = append(w.evs, term.C("EHP", term.I(keyOf(e.Key)), term.I(int64(e.Target)),
 			term.F(e.OldHPRatio), term.F(e.NewHPRatio), term.F(e.OldHP), term.F(e.NewHP),
 			term.B(e.IsHPChangeByDamage)))
+		w.react(slotHP, e.Target)
 	})
 	sys.LimboWaitHeal.Subscribe(func(e event.LimboWaitHeal) bool {
 		w.evs = append(w.evs, term.C("ELimbo", term.I(int64(e.Target))))
+		w.react(slotLimbo, e.Target)
 		return w.limbo
 	}, 1)
 	sys.EnergyChange.Subscribe(func(e event.EnergyChange) {
 		w.evs = append(w.evs, term.C("EEnergy", term.I(keyOf(e.Key)), term.I(int64(e.Target)),
 			term.I(int64(e.Source)), term.F(e.OldEnergy), term.F(e.NewEnergy)))
+		w.react(slotEnergy, e.Target)
 	})
 	sys.StanceChange.Subscribe(func(e event.StanceChange) {
 		w.evs = append(w.evs, term.C("EStance", term.I(keyOf(e.Key)), term.I(int64(e.Target)),
 			term.I(int64(e.Source)), term.F(e.OldStance), term.F(e.NewStance)))
+		w.react(slotStance, e.Target)
 	})
 	sys.StanceBreak.Subscribe(func(e event.StanceBreak) {
 		w.evs = append(w.evs, term.C("EBreak", term.I(keyOf(e.Key)), term.I(int64(e.Target)),
 			term.I(int64(e.Source))))
+		w.react(slotBreak, e.Target)
 	})
 	sys.StanceReset.Subscribe(func(e event.StanceReset) {
 		w.evs = append(w.evs, term.C("EReset", term.I(keyOf(e.Key)), term.I(int64(e.Target))))
+		w.react(slotReset, e.Target)
 	})
 	sys.SPChange.Subscribe(func(e event.SPChange) {
 		w.evs = append(w.evs, term.C("ESP", term.I(keyOf(e.Key)), term.I(int64(e.Source)),
 			term.I(int64(e.OldSP)), term.I(int64(e.NewSP))))
+		w.react(slotSP, e.Source)
 	})
 	w.svc = attribute.New(sys, w.eval)
 	return w
@@ -161,77 +202,99 @@ func (c attrCall) mod(amount float64) info.ModifyAttribute {
 	return info.ModifyAttribute{Key: c.key, Target: c.target, Source: c.source, Amount: amount}
 }
 
+// call performs one op term on the real service and returns the error and the id whose getters are read
+// after a top-level op
+func (w *attrWorld) call(o term.T) (tgt key.TargetID, err error) {
+	name, a := term.Ctor(o)
+	switch name {
+	case "OAdd":
+		tgt = key.TargetID(term.Int(a[0]))
+		err = w.svc.AddTarget(tgt, info.Attributes{
+			Level:         1,
+			BaseStats:     nil,
+			BaseDebuffRES: nil,
+			Weakness:      nil,
+			HPRatio:       term.Float(a[1]),
+			Energy:        term.Float(a[2]),
+			MaxEnergy:     term.Float(a[3]),
+			Stance:        term.Float(a[4]),
+			MaxStance:     term.Float(a[5]),
+		})
+	case "OSetHP":
+		c := w.enter(a[0])
+		tgt = c.target
+		err = w.svc.SetHP(c.mod(term.Float(a[1])), term.Bool(a[2]))
+	case "OModHPAmount":
+		c := w.enter(a[0])
+		tgt = c.target
+		err = w.svc.ModifyHPByAmount(c.mod(term.Float(a[1])), term.Bool(a[2]))
+	case "OModHPRatio":
+		c := w.enter(a[0])
+		tgt = c.target
+		err = w.svc.ModifyHPByRatio(info.ModifyHPByRatio{
+			Key: c.key, Target: c.target, Source: c.source,
+			Ratio:     term.Float(a[1]),
+			RatioType: model.ModifyHPRatioType(term.Int(a[2])),
+			Floor:     term.Float(a[3]),
+		}, term.Bool(a[4]))
+	case "OSetStance":
+		c := w.enter(a[0])
+		tgt = c.target
+		err = w.svc.SetStance(c.mod(term.Float(a[1])))
+	case "OModStance":
+		c := w.enter(a[0])
+		tgt = c.target
+		err = w.svc.ModifyStance(c.mod(term.Float(a[1])))
+	case "OSetEnergy":
+		c := w.enter(a[0])
+		tgt = c.target
+		err = w.svc.SetEnergy(c.mod(term.Float(a[1])))
+	case "OModEnergy":
+		c := w.enter(a[0])
+		tgt = c.target
+		err = w.svc.ModifyEnergy(c.mod(term.Float(a[1])))
+	case "OModEnergyFixed":
+		c := w.enter(a[0])
+		tgt = c.target
+		err = w.svc.ModifyEnergyFixed(c.mod(term.Float(a[1])))
+	case "OModSP":
+		tgt = key.TargetID(term.Int(a[1]))
+		err = w.svc.ModifySP(info.ModifySP{
+			Key:    key.Reason(strconv.FormatInt(term.Int(a[0]), 10)),
+			Source: tgt,
+			Amount: int(term.Int(a[2])),
+		})
+	default:
+		panic("attr harness: unknown op " + name)
+	}
+	return tgt, err
+}
+
+// input: (mkLs <7 queues of scripts>, <top-level ops>)
+func attrInput(in term.T) (queues []term.T, ops []term.T) {
+	parts := term.TupleItems(in)
+	if len(parts) != 2 {
+		panic("attr harness: input is not a pair (listeners, ops)")
+	}
+	name, qs := term.Ctor(parts[0])
+	if name != "mkLs" || len(qs) != nSlots {
+		panic("attr harness: malformed listener table")
+	}
+	return qs, term.List(parts[1])
+}
+
 func runAttr(in term.T) term.T {
 	logging.InitLoggers()
 	w := newAttrWorld()
+	qs, ops := attrInput(in)
+	for i := 0; i < nSlots; i++ {
+		w.queues[i] = term.List(qs[i])
+	}
 	results := []term.T{}
-	for _, o := range term.List(in) {
-		name, a := term.Ctor(o)
+	for _, o := range ops {
 		w.evs = nil
 		w.limbo = false
-		var err error
-		var tgt key.TargetID
-		switch name {
-		case "OAdd":
-			tgt = key.TargetID(term.Int(a[0]))
-			err = w.svc.AddTarget(tgt, info.Attributes{
-				Level:         1,
-				BaseStats:     nil,
-				BaseDebuffRES: nil,
-				Weakness:      nil,
-				HPRatio:       term.Float(a[1]),
-				Energy:        term.Float(a[2]),
-				MaxEnergy:     term.Float(a[3]),
-				Stance:        term.Float(a[4]),
-				MaxStance:     term.Float(a[5]),
-			})
-		case "OSetHP":
-			c := w.enter(a[0])
-			tgt = c.target
-			err = w.svc.SetHP(c.mod(term.Float(a[1])), term.Bool(a[2]))
-		case "OModHPAmount":
-			c := w.enter(a[0])
-			tgt = c.target
-			err = w.svc.ModifyHPByAmount(c.mod(term.Float(a[1])), term.Bool(a[2]))
-		case "OModHPRatio":
-			c := w.enter(a[0])
-			tgt = c.target
-			err = w.svc.ModifyHPByRatio(info.ModifyHPByRatio{
-				Key: c.key, Target: c.target, Source: c.source,
-				Ratio:     term.Float(a[1]),
-				RatioType: model.ModifyHPRatioType(term.Int(a[2])),
-				Floor:     term.Float(a[3]),
-			}, term.Bool(a[4]))
-		case "OSetStance":
-			c := w.enter(a[0])
-			tgt = c.target
-			err = w.svc.SetStance(c.mod(term.Float(a[1])))
-		case "OModStance":
-			c := w.enter(a[0])
-			tgt = c.target
-			err = w.svc.ModifyStance(c.mod(term.Float(a[1])))
-		case "OSetEnergy":
-			c := w.enter(a[0])
-			tgt = c.target
-			err = w.svc.SetEnergy(c.mod(term.Float(a[1])))
-		case "OModEnergy":
-			c := w.enter(a[0])
-			tgt = c.target
-			err = w.svc.ModifyEnergy(c.mod(term.Float(a[1])))
-		case "OModEnergyFixed":
-			c := w.enter(a[0])
-			tgt = c.target
-			err = w.svc.ModifyEnergyFixed(c.mod(term.Float(a[1])))
-		case "OModSP":
-			tgt = key.TargetID(term.Int(a[1]))
-			err = w.svc.ModifySP(info.ModifySP{
-				Key:    key.Reason(strconv.FormatInt(term.Int(a[0]), 10)),
-				Source: tgt,
-				Amount: int(term.Int(a[2])),
-			})
-		default:
-			panic("attr harness: unknown op " + name)
-		}
+		tgt, err := w.call(o)
 		results = append(results, term.C("mkRes", term.L(w.evs...), term.I(errCode(err)), w.snap(tgt)))
 	}
 	final := []term.T{}
@@ -304,9 +367,143 @@ func genMaxHP(r *term.Rng) float64 {
 	return pickF(r, 100, 100, 100, 1000, 1, 3, 0.1, 1234.5678, 5e-324, 1e-300, 1e300, math.MaxFloat64)
 }
 
+// attrGen is the state of one generated case
+type attrGen struct {
+	r      *term.Rng
+	ids    []int64
+	nUnits int
+	units  map[int64]*genUnit
+}
+
+func (g *attrGen) unit(tid int64) *genUnit {
+	if u, ok := g.units[tid]; ok {
+		return u
+	}
+	return &genUnit{id: tid, maxHP: 100, maxEnergy: 100, maxStance: 60}
+}
+
+// one call of kind 0 hp, 1 energy, 2 stance, 3 sp on unit tid; [amt] draws the amounts
+func (g *attrGen) op(tid int64, kind int, amt func(r *term.Rng, hi float64) float64) term.T {
+	r := g.r
+	u := g.unit(tid)
+	src := int64(r.Range(1, 4))
+	maxHP := u.maxHP
+	if r.Chance(1, 6) {
+		maxHP = genMaxHP(r) // max HP changed since the last call
+	}
+	// The stance damage bonus is the same for every unit during a call: whose bonus scales
+	// ModifyStance (engine.go documents the source's, the code read the target's) is
+	// property C04's subject, and C07 must hold either way.  Max HP and energy regen of the
+	// other units differ from the target's, so reading the wrong party's stats is seen.
+	bonus := genScale(r)
+	env := term.C("mkEnv", term.F(maxHP), term.F(genScale(r)), term.F(bonus),
+		term.F(pickF(r, 7, 50, 1e6)), term.F(pickF(r, 0.3, 2, -0.75)), term.F(bonus))
+	call := term.C("mkCall", env, term.I(int64(r.Intn(4))), term.I(tid), term.I(src), term.B(r.Chance(1, 3)))
+	switch kind {
+	case 0:
+		switch r.Intn(4) {
+		case 0:
+			return term.C("OSetHP", call, term.F(amt(r, maxHP)), term.B(r.Bool()))
+		case 1:
+			return term.C("OModHPAmount", call, term.F(amt(r, maxHP)), term.B(r.Bool()))
+		default:
+			ratio := pickF(r, -0.1, -0.25, -0.5, -0.5, -0.75, -1, -1, -2, 0.1, 0.25, 0.5, 1, 2, 0,
+				math.Copysign(0, -1), -0.999, -1e-9, 1e308, -1e308)
+			if r.Chance(1, 6) {
+				ratio = r.Float01()*4 - 2
+			}
+			floor := pickF(r, 0, 0, 0, 1, 1, maxHP/10, maxHP/4, maxHP/2, maxHP, 2*maxHP, -1, -maxHP/2, -1e9,
+				-math.MaxFloat64, math.MaxFloat64, math.Copysign(0, -1))
+			if math.IsInf(floor, 0) {
+				floor = maxHP
+			}
+			rt := int64(r.Range(1, 2))
+			if r.Chance(1, 25) {
+				rt = int64(pickF(r, 0, 3, -1))
+			}
+			return term.C("OModHPRatio", call, term.F(ratio), term.I(rt), term.F(floor), term.B(r.Bool()))
+		}
+	case 1:
+		name := term.Pick(r, []string{"OSetEnergy", "OModEnergy", "OModEnergyFixed", "OModEnergyFixed"})
+		return term.C(name, call, term.F(amt(r, u.maxEnergy)))
+	case 2:
+		name := term.Pick(r, []string{"OSetStance", "OModStance", "OModStance"})
+		return term.C(name, call, term.F(amt(r, u.maxStance)))
+	default:
+		a := int64(r.Range(-3, 3))
+		if r.Chance(1, 5) {
+			a = term.Pick(r, []int64{5, -5, 6, -6, 100, -100, math.MaxInt64, math.MinInt64,
+				math.MaxInt64 - 4, math.MinInt64 + 1})
+		}
+		return term.C("OModSP", term.I(int64(r.Intn(4))), term.I(src), term.I(a))
+	}
+}
+
+// amounts of calls issued from listeners: the bounds and the middle of [0,hi] (so that a listener undoes,
+// repeats or anticipates what the outer call is doing), signed so that Modify* crosses them both ways
+func scriptAmount(r *term.Rng, hi float64) float64 {
+	if r.Chance(1, 4) {
+		return genAmount(r, hi)
+	}
+	return pickF(r, 0, 0, hi, hi, -hi, -hi, hi/2, -hi/2, hi/4, 2*hi, -2*hi, math.Copysign(0, -1))
+}
+
+// the quantity an event slot is about (kind numbering of attrGen.op)
+var slotKind = [nSlots]int{slotHP: 0, slotLimbo: 0, slotStance: 2, slotBreak: 2, slotReset: 2, slotEnergy: 1, slotSP: 3}
+
+// listener scripts: per slot a queue of 0-3 scripts of mostly 0-2 calls; at most [budget] scripts per case
+// (every listener invocation consumes one, so the nesting depth and the recorded output stay small).
+// A script mostly works on the hot unit (the one the top-level calls work on) and on the quantity its
+// event is about: it re-triggers the same event, undoes / anticipates the outer call's change, or uses the
+// same key again.
+func (g *attrGen) listeners(hot int64, focus int) term.T {
+	r := g.r
+	budget := r.Range(1, 9)
+	qs := make([][]term.T, nSlots)
+	for budget > 0 {
+		sl := r.Intn(nSlots)
+		if focus < 4 && r.Chance(2, 3) {
+			// a slot whose event the focused quantity fires
+			switch focus {
+			case 0:
+				sl = term.Pick(r, []int{slotHP, slotHP, slotLimbo})
+			case 1:
+				sl = slotEnergy
+			case 2:
+				sl = term.Pick(r, []int{slotStance, slotBreak, slotBreak, slotReset})
+			default:
+				sl = slotSP
+			}
+		}
+		if len(qs[sl]) >= 3 {
+			budget--
+			continue
+		}
+		n := term.Pick(r, []int{0, 1, 1, 1, 2, 2, 3})
+		sc := []term.T{}
+		for i := 0; i < n; i++ {
+			kind := slotKind[sl]
+			if r.Chance(1, 4) {
+				kind = r.Intn(4)
+			}
+			tid := hot
+			if r.Chance(1, 6) {
+				tid = int64(r.Range(1, 4))
+			}
+			sc = append(sc, g.op(tid, kind, scriptAmount))
+		}
+		qs[sl] = append(qs[sl], term.L(sc...))
+		budget--
+	}
+	ls := make([]term.T, nSlots)
+	for i := range qs {
+		ls[i] = term.L(qs[i]...)
+	}
+	return term.C("mkLs", ls...)
+}
+
 func genAttr(r *term.Rng, idx int) term.T {
-	ids := []int64{1, 2, 3}
-	units := map[int64]*genUnit{}
+	g := &attrGen{r: r, ids: []int64{1, 2, 3}, units: map[int64]*genUnit{}}
 	ops := []term.T{}
 	addUnit := func(id int64) {
 		u := &genUnit{id: id, maxHP: genMaxHP(r)}
@@ -329,94 +526,59 @@ func genAttr(r *term.Rng, idx int) term.T {
 		case 1:
 			st = u.maxStance / 2
 		}
-		if _, dup := units[id]; !dup {
-			units[id] = u
+		if _, dup := g.units[id]; !dup {
+			g.units[id] = u
 		}
 		ops = append(ops, term.C("OAdd", term.I(id), term.F(hp), term.F(en), term.F(u.maxEnergy),
 			term.F(st), term.F(u.maxStance)))
 	}
-	nUnits := r.Range(1, 3)
-	for i := 0; i < nUnits; i++ {
-		addUnit(ids[i])
+	g.nUnits = r.Range(1, 3)
+	for i := 0; i < g.nUnits; i++ {
+		addUnit(g.ids[i])
 	}
-	nops := r.Range(2, 30)
 	// a case concentrates on few quantities so that consecutive calls chain
 	focus := r.Intn(5) // 0 hp, 1 energy, 2 stance, 3 sp, 4 everything
-	for len(ops) < nUnits+nops {
+	// two cases in three have re-entrant listeners; they have fewer top-level calls, most of them on one
+	// unit, which is also the unit the listener scripts work on
+	reentrant := !r.Chance(1, 3)
+	hot := term.Pick(r, g.ids[:g.nUnits])
+	nops := r.Range(2, 30)
+	if reentrant {
+		nops = r.Range(1, 12)
+	}
+	for len(ops) < g.nUnits+nops {
 		if r.Chance(1, 25) {
-			addUnit(term.Pick(r, ids)) // late or duplicate registration
+			addUnit(term.Pick(r, g.ids)) // late or duplicate registration
 			continue
 		}
-		tid := term.Pick(r, ids[:nUnits])
+		tid := term.Pick(r, g.ids[:g.nUnits])
+		if reentrant && r.Chance(2, 3) {
+			tid = hot
+		}
 		if r.Chance(1, 20) {
 			tid = int64(r.Range(1, 4)) // possibly unknown
 		}
-		u, ok := units[tid]
-		if !ok {
-			u = &genUnit{id: tid, maxHP: 100, maxEnergy: 100, maxStance: 60}
-		}
-		src := int64(r.Range(1, 4))
-		maxHP := u.maxHP
-		if r.Chance(1, 6) {
-			maxHP = genMaxHP(r) // max HP changed since the last call
-		}
-		// The stance damage bonus is the same for every unit during a call: whose bonus scales
-		// ModifyStance (engine.go documents the source's, the code read the target's) is
-		// property C04's subject, and C07 must hold either way.  Max HP and energy regen of the
-		// other units differ from the target's, so reading the wrong party's stats is seen.
-		bonus := genScale(r)
-		env := term.C("mkEnv", term.F(maxHP), term.F(genScale(r)), term.F(bonus),
-			term.F(pickF(r, 7, 50, 1e6)), term.F(pickF(r, 0.3, 2, -0.75)), term.F(bonus))
-		call := term.C("mkCall", env, term.I(int64(r.Intn(4))), term.I(tid), term.I(src), term.B(r.Chance(1, 3)))
 		kind := focus
 		if focus == 4 || r.Chance(1, 5) {
 			kind = r.Intn(4)
 		}
-		switch kind {
-		case 0:
-			switch r.Intn(4) {
-			case 0:
-				ops = append(ops, term.C("OSetHP", call, term.F(genAmount(r, maxHP)), term.B(r.Bool())))
-			case 1:
-				ops = append(ops, term.C("OModHPAmount", call, term.F(genAmount(r, maxHP)), term.B(r.Bool())))
-			default:
-				ratio := pickF(r, -0.1, -0.25, -0.5, -0.5, -0.75, -1, -1, -2, 0.1, 0.25, 0.5, 1, 2, 0,
-					math.Copysign(0, -1), -0.999, -1e-9, 1e308, -1e308)
-				if r.Chance(1, 6) {
-					ratio = r.Float01()*4 - 2
-				}
-				floor := pickF(r, 0, 0, 0, 1, 1, maxHP/10, maxHP/4, maxHP/2, maxHP, 2*maxHP, -1, -maxHP/2, -1e9,
-					-math.MaxFloat64, math.MaxFloat64, math.Copysign(0, -1))
-				if math.IsInf(floor, 0) {
-					floor = maxHP
-				}
-				rt := int64(r.Range(1, 2))
-				if r.Chance(1, 25) {
-					rt = int64(pickF(r, 0, 3, -1))
-				}
-				ops = append(ops, term.C("OModHPRatio", call, term.F(ratio), term.I(rt), term.F(floor), term.B(r.Bool())))
-			}
-		case 1:
-			name := term.Pick(r, []string{"OSetEnergy", "OModEnergy", "OModEnergyFixed", "OModEnergyFixed"})
-			ops = append(ops, term.C(name, call, term.F(genAmount(r, u.maxEnergy))))
-		case 2:
-			name := term.Pick(r, []string{"OSetStance", "OModStance", "OModStance"})
-			ops = append(ops, term.C(name, call, term.F(genAmount(r, u.maxStance))))
-		default:
-			amt := int64(r.Range(-3, 3))
-			if r.Chance(1, 5) {
-				amt = term.Pick(r, []int64{5, -5, 6, -6, 100, -100, math.MaxInt64, math.MinInt64,
-					math.MaxInt64 - 4, math.MinInt64 + 1})
-			}
-			ops = append(ops, term.C("OModSP", term.I(int64(r.Intn(4))), term.I(src), term.I(amt)))
+		amt := genAmount
+		if reentrant && r.Chance(1, 2) {
+			amt = scriptAmount
 		}
+		ops = append(ops, g.op(tid, kind, amt))
 	}
-	return term.L(ops...)
+	ls := term.C("mkLs", term.L(), term.L(), term.L(), term.L(), term.L(), term.L(), term.L())
+	if reentrant {
+		ls = g.listeners(hot, focus)
+	}
+	return term.Tup(ls, term.L(ops...))
 }
 
 func kindsAttr(in term.T) map[string]int {
 	m := map[string]int{}
-	for _, o := range term.List(in) {
+	qs, ops := attrInput(in)
+	for _, o := range ops {
 		n, a := term.Ctor(o)
 		m[n]++
 		if n == "OModHPRatio" {
@@ -426,6 +588,18 @@ func kindsAttr(in term.T) map[string]int {
 				m["ratio_positive_floor"]++
 			}
 		}
+	}
+	names := [nSlots]string{"hp", "limbo", "stance", "break", "reset", "energy", "sp"}
+	total := 0
+	for i, q := range qs {
+		for _, sc := range term.List(q) {
+			total++
+			m["script_"+names[i]]++
+			m["script_ops"] += len(term.List(sc))
+		}
+	}
+	if total > 0 {
+		m["case_with_listeners"]++
 	}
 	return m
 }
